@@ -357,6 +357,20 @@ theorem C10_no_derive_through_blocklisted (sz : Bool) (name : Option String) (me
     | some n => simp [hn n rfl]
   exact ⟨h1, compDerive_no_of_mem members .yes (h1 ▸ hm)⟩
 
+/-- `no_derive_through_blocklisted`, at the reference through which a container uses the type: when the
+blocklisted type `T` is not opaque, the reference answers `T`'s answer, `No`.  (`_partial`: the
+hypothesis `tOpaque = false` is forced, see `C10_fails_on_blocklisted_and_opaque`.) -/
+theorem C10_no_derive_through_ref_partial (rAllowlisted : Bool) :
+    deriveThroughRef rAllowlisted false .no = .no := by
+  cases rAllowlisted <;> rfl
+
+/-- Known finding `derive_through_blocklisted_opaque`: a type that is blocklisted through its own
+`hide` annotation (or its file) *and* opaque.  The reference item is neither annotated nor in that file,
+so it is allow-listed; it is opaque because its target is; `constrain_type` answers `Yes` from the layout
+before ever asking the blocklisted type: the container derives through it. -/
+theorem C10_fails_on_blocklisted_and_opaque :
+    deriveThroughRef true true .no = .yes ∧ compDerive [deriveThroughRef true true .no] = .yes := by decide
+
 /-- with callbacks, the answer is the callback's (the user vouches), `No` when it is silent -/
 theorem C10_callback_vouches (sz : Bool) (n : String) (a : Option CanDerive) :
     blocklistedTypeImplementsTrait false a sz (some n) = a.getD .no := by
